@@ -99,22 +99,49 @@ def bounded_metamorphic(seed, n):
     def close(x, y, rel=1e-9):
         return abs(x - y) <= rel * max(1.0, abs(x), abs(y))
 
-    def cases():
-        for ka in B.FLAT:
-            for kb in B.FLAT:
-                for a, b, label in K.flat_pairs(ka, kb, rng, 2):
-                    yield a, b, label
-        bodies = list(K.polygons(rng, 3)) + list(K.polyhedra(rng, 3))
-        for Kb in bodies:
-            for kind in B.FLAT:
-                for f, label in K.flat_vs_convex(kind, Kb, rng, 2):
-                    yield f, Kb, label
-        for a, b, label in K.convex_pairs(rng, 30):
-            yield a, b, label
+    pool = []
+    for ka in B.FLAT:
+        for kb in B.FLAT:
+            pool += list(K.flat_pairs(ka, kb, rng, 40))
+    bodies = list(K.polygons(rng, 3)) + list(K.polyhedra(rng, 3))
+    for Kb in bodies:
+        for kind in B.FLAT:
+            pool += [(f, Kb, lab) for f, lab in K.flat_vs_convex(kind, Kb, rng, 24)]
+    pool += list(K.convex_pairs(rng, 130))
+    rng.shuffle(pool)
 
+    def reps(o):
+        """another exact representation of the same set (for the 'equality unchanged' clause)"""
+        k_ = o[0]
+        if k_ == "Line":
+            return ("Line", O.add(o[1], O.scale(3, o[2])), O.scale(-2, o[2]))
+        if k_ == "Plane":
+            return ("Plane", o[1], O.scale(-3, o[2]))
+        if k_ == "Segment":
+            return ("Segment", o[2], o[1])
+        if k_ == "HalfLine":
+            return ("HalfLine", o[1], O.scale(2, o[2]))
+        if k_ == "Polygon":
+            return ("Polygon", tuple(reversed(o[1])))
+        if k_ == "Polyhedron":
+            return ("Polyhedron", tuple(tuple(reversed(f)) for f in reversed(o[1])))
+        return o
+
+    # equality of two representations of one set is True in every orientation (all 48 symmetries), hashes agree
+    for a, b, label in pool[:60]:
+        for o in (a, b):
+            o2 = reps(o)
+            for R in K.SYMMETRIES:
+                klass = "== of two representations:%s" % o[0]
+                acc.case(klass)
+                x1, x2 = O.to_lib(K.transform(o, R, (1, -2, 3), 1), "float"), O.to_lib(K.transform(o2, R, (1, -2, 3), 1), "float")
+                q = B._call(lambda: (x1 == x2, hash(x1) == hash(x2)))
+                if q[0] == "exc" or q[1] != (True, True):
+                    acc.fail(klass, "two representations of the same %s compare / hash %r in orientation %r" % (o[0], q[1], R), dict(a=B.ser(o), b=B.ser(o2), R=B.ser(R), t=B.ser((1, -2, 3)), k="1", label="representations"))
+                    break
     count = 0
     while count < n:
-        for a, b, label in cases():
+        for a, b, label in pool:
             if count >= n:
                 break
             R = rng.choice(K.SYMMETRIES)
